@@ -5,6 +5,7 @@ import (
 	"go/constant"
 	"go/types"
 	"math/big"
+	"strings"
 
 	"golang.org/x/tools/go/ssa"
 
@@ -337,6 +338,14 @@ func (x *Exec) toTerm(s *State, v Val, t types.Type) *smt.Term {
 	case FuncVal:
 		if len(v.Bindings) == 0 {
 			return x.E.FnConst(v.Fn)
+		}
+		if len(v.Bindings) == 1 && strings.HasSuffix(v.Fn.Name(), "$bound") {
+			// method value recv.m: a function of the receiver (spec builtin boundmethod(recv, "m"))
+			if rt, ok := v.Bindings[0].(TermVal); ok && rt.T != nil && rt.T.Sort == smt.Ref {
+				cl := smt.App("bound$"+sanitizeName(strings.TrimSuffix(v.Fn.String(), "$bound")), smt.Fn, rt.T)
+				s.assume(smt.Neq(cl, FnNil))
+				return cl
+			}
 		}
 		cl := smt.Fresh("closure", smt.Fn)
 		s.assume(smt.Neq(cl, FnNil))
